@@ -146,19 +146,25 @@ def collectStep (p : Prog) (rec : Nat → DState → Except Err DState)
 /-- the vertices reached from the source of `g` by input edges, in DFS post-order -/
 def Prog.postIn (p : Prog) (g : Nat) : List V := visit p.adjIn p.fuel (.src g) []
 
+/-- `arguments_of[graph]`: the request, or `list(all - claimed)` (set order; compared sorted) -/
+def argsFor (pg : PGraph) (acc : Acc) : List Nat :=
+  match pg.args with
+  | none => sortNat (diff acc.all acc.claimed)
+  | some a => a
+
+/-- `all_arguments` after `all_arguments |= set(graph.requested_arguments)` -/
+def allFor (pg : PGraph) (acc : Acc) : List Nat :=
+  match pg.args with
+  | none => acc.all
+  | some a => union acc.all a
+
 def finishDiscover (pg : PGraph) (g : Nat) (st : DState) (acc : Acc) : Except Err DState :=
-  let args := match pg.args with
-    | none => sortNat (diff acc.all acc.claimed)      -- `list(all - claimed)`: set order, compared sorted
-    | some a => a
-  let all' := match pg.args with
-    | none => acc.all
-    | some a => union acc.all a
-  if inter args acc.claimed ≠ [] then .error (.build "already-claimed")
+  if inter (argsFor pg acc) acc.claimed ≠ [] then .error (.build "already-claimed")
   else if inter acc.claimed acc.used ≠ [] then .error (.build "leaked")
   else .ok { st with topo := st.topo ++ [g],
-                     allIn := (g, all') :: st.allIn,
-                     claimedIn := (g, union acc.claimed args) :: st.claimedIn,
-                     argsOf := (g, args) :: st.argsOf }
+                     allIn := (g, allFor pg acc) :: st.allIn,
+                     claimedIn := (g, union acc.claimed (argsFor pg acc)) :: st.claimedIn,
+                     argsOf := (g, argsFor pg acc) :: st.argsOf }
 
 def discover (p : Prog) : Nat → Nat → DState → Except Err DState
   | 0, _, _ => .error .fuel
